@@ -54,6 +54,7 @@ type loopInfo struct {
 	pos     token.Pos
 	isRangeIndex bool
 	autoInv []func(map[*ssa.Phi]string) string
+	iterSym string
 }
 
 type FuncGen struct {
@@ -265,6 +266,7 @@ func (g *Gen) GenFunc(fn *ssa.Function) (*FuncGen, error) {
 	fg.curReach = "true"
 	if fg.c != nil {
 		env := fg.funcEnv(fg.st, fg.st, nil)
+		env.assume = true
 		for _, r := range fg.c.Requires {
 			t := env.Tr(r.E)
 			if fg.err != nil {
@@ -531,6 +533,9 @@ func (fg *FuncGen) loopEnv(li *loopInfo, st State, phiVals map[*ssa.Phi]string) 
 		if name == "iter" && li.isRangeIndex {
 			for _, in := range li.header.Instrs {
 				if phi, ok := in.(*ssa.Phi); ok && phi.Comment == "rangeindex" {
+					if li.iterSym != "" && phiVals[phi] == li.phiHead[phi] {
+						return TTerm{S: li.iterSym, Sort: "Int"}, true
+					}
 					return TTerm{S: "(+ " + phiVals[phi] + " 1)", Sort: "Int"}, true
 				}
 			}
@@ -1012,6 +1017,10 @@ func (fg *FuncGen) loopHead(li *loopInfo, fwd []*ssa.BasicBlock, in string, rnam
 		li.phiHead[phi] = t.S
 		if phi.Comment == "rangeindex" {
 			fg.emit("(assert (>= %s (- 1)))", t.S)
+			// a name for the number of completed iterations (the same term the loop body computes)
+			li.iterSym = fg.fresh("iter")
+			fg.emit("(declare-const %s Int)", li.iterSym)
+			fg.emit("(assert (= %s (+ %s 1)))", li.iterSym, t.S)
 		}
 	}
 	mod := fg.modifiedFamilies(li)
@@ -1042,6 +1051,9 @@ func (fg *FuncGen) loopHead(li *loopInfo, fwd []*ssa.BasicBlock, in string, rnam
 		if !assigned[f] && strings.HasPrefix(fg.g.families[f], "(Array Int") {
 			// objects that existed at function entry are not written (justified by the frame obligations)
 			fg.emit("(assert (forall ((r Int)) (! (=> (< r %s) (= (select %s r) (select %s!0 r))) :pattern ((select %s r)))))", fg.wm0, sym, f, sym)
+			if f == "Q_Val" {
+				fg.emit("(assert (forall ((s Slice) (i Int)) (! (=> (< (sref s) %s) (= (gat %s s i) (gat %s!0 s i))) :pattern ((gat %s s i)))))", fg.wm0, sym, f, sym)
+			}
 		}
 	}
 	li.headSt = fg.st.Copy()
@@ -1058,6 +1070,7 @@ func (fg *FuncGen) loopHead(li *loopInfo, fwd []*ssa.BasicBlock, in string, rnam
 	}
 	if li.spec != nil {
 		env := fg.loopEnv(li, li.headSt, li.phiHead)
+		env.assume = true
 		for _, inv := range li.spec.Invariants {
 			t := env.Tr(inv.E)
 			if fg.err != nil {
